@@ -2,6 +2,7 @@ import Lemmas.EvalFull
 import Lemmas.EvalBound
 import Lemmas.EvalVars
 import Lemmas.EvalFixedTree
+import Lemmas.EvalFixedBound
 import Lemmas.EvalState
 import Lemmas.Fixed64
 import Generated.Facts
@@ -290,7 +291,8 @@ theorem evaluate_no_panic_budget (ops : List Op) (fns : List Bytes) (hne : SymsN
 
 /-- … in particular what the driver runs on every line (`evaluateReuse`: any previous evaluator state, budget
     `driverBudget`), for every resolver whose answers are `$`-free and at most 32 bytes longer than `$name` — the
-    resolvers of the harness (`@name`; the literal table) are of this kind — and for no resolver -/
+    structure-pass resolver of the harness (`@name`) and the `$`-free entries of its literal table are of this kind
+    (the two chain entries `ch`, `ch2` answer with `$…` and are outside) — and for no resolver -/
 theorem evaluate_no_panic_driver (ops : List Op) (fns : List Bytes) (hne : SymsNonempty ops)
     (resolve : Option (Bytes → Bytes))
     (hres : ∀ f, resolve = some f → (∀ n, (36 : Nat) ∉ f n) ∧ (∀ n, (f n).length ≤ n.length + 33)) (s : Bytes) (old : St) :
@@ -407,7 +409,10 @@ def afterHistory (ops : List Op) (fns : List Bytes) (resolve : Option (Bytes →
 /-- clause "a reused Evaluator gives the same answers as a fresh one": the model's `Evaluate` takes the stacks the
     previous call left behind (`evaluateWith`; the driver threads them from line to line) and `parse` begins with the
     two reset statements (`St.reset`); for EVERY old state — in particular every state reachable by a history of
-    earlier evaluations, failed ones included — the result is that of a fresh evaluator -/
+    earlier evaluations, failed ones included — the result is that of a fresh evaluator.  The reset makes the old
+    state unobservable by construction (that is the content of the clause); the dependence on it is shown by
+    `reset_is_needed`, and because the driver passes the threaded state into `parseOn`, a model without the reset
+    would disagree with the code on the `struct` stream -/
 theorem reuse_eq_fresh (ops : List Op) (fns : List Bytes) (resolve : Option (Bytes → Bytes)) (old : St) (s : Bytes) :
     (evaluateReuse ops fns resolve old s).2 = (evaluateReuse ops fns resolve {} s).2 := by
   rw [evaluateReuse_snd, evaluateReuse_snd]
@@ -459,12 +464,16 @@ theorem reset_is_needed :
       p2 ⟨[], []⟩ ⟨⟨[.operand none (symBytes "2")], [⟨⟨symBytes "*", 60, true, false⟩, none⟩]⟩, true, none⟩ rfl]
     rfl
 
-/-! the exponent hack concerns numeric literals only: `$e`, `$rate`, `$a1e`, `1.2e-2` are atoms; an unfinished exponent
+/-! the exponent hack concerns numeric literals only, in all four spellings of a signed exponent: `$e`, `$rate`, `$a1e`,
+    `$A1E`, `1.2e-2`, `1e+2`, `2.5E-1`, `2.5E+1` are atoms; an unfinished exponent
     literal `2e` is not (a following `-` would be taken for its sign) -/
 example : AtomOK stdOps (symBytes "$e") ∧ AtomOK stdOps (symBytes "$rate") ∧ AtomOK stdOps (symBytes "$a1e") ∧
-    AtomOK stdOps (symBytes "1.2e-2") ∧ ¬ AtomOK stdOps (symBytes "2e") ∧
+    AtomOK stdOps (symBytes "1.2e-2") ∧ AtomOK stdOps (symBytes "1e+2") ∧ AtomOK stdOps (symBytes "2.5E-1") ∧
+    AtomOK stdOps (symBytes "2.5E+1") ∧ AtomOK stdOps (symBytes "$A1E") ∧ ¬ AtomOK stdOps (symBytes "2e") ∧
     expHack (symBytes "$a1e").reverse = false ∧ expHack (symBytes "(3e").reverse = true :=
   ⟨⟨by decide, by decide, by decide, by decide⟩, ⟨by decide, by decide, by decide, by decide⟩,
+   ⟨by decide, by decide, by decide, by decide⟩, ⟨by decide, by decide, by decide, by decide⟩,
+   ⟨by decide, by decide, by decide, by decide⟩, ⟨by decide, by decide, by decide, by decide⟩,
    ⟨by decide, by decide, by decide, by decide⟩, ⟨by decide, by decide, by decide, by decide⟩,
    fun h => absurd h.2.2.2 (by decide), by decide, by decide⟩
 
@@ -802,14 +811,35 @@ theorem fixed_value_no_panic (k : Nat) (z : Bool) (c : Cfg) (hk : cfg? k z = som
   rw [fixed_value_render_driver k z c hk fns resolve e hw he har ws hws]
   exact X.val_ne_panic c e
 
-/-- still open for the fixed evaluator's VALUES: variables (`$name`) — the structure theorems `evaluate_render` cover
-    their substitution, the value theorem is stated for closed expressions; robustness of `EvalFixed.evaluate` on
-    EVERY byte list (proved for the symbolic evaluation, `evaluate_no_panic`; here only on well-formed input);
-    and everything that goes through float64 (exponent literals, `^`, sqrt, cbrt, exp, exp2, log, log10, log1p, and
-    the float evaluators altogether), which stays tied by the `val` stream only -/
-def fixed_value_Statement : Prop :=
-  ∀ (k : Nat) (z : Bool) (c : Cfg), cfg? k z = some c → ∀ (fns : List Bytes) (f : Bytes → Bytes) (s : Bytes),
-    (∀ n, (36 : Nat) ∉ f n) → ∃ D, ∀ d, D ≤ d → EvalFixed.evaluate c stdOps fns (some f) d s ≠ .panic
+/-- **values with variables**: for every resolver that answers the variables of the expression with literals
+    (lexable atoms without `,` and `$`), `Evaluate` of the fixed evaluator on any layout of a well-formed expression
+    returns the value of the tree of the SUBSTITUTED expression — a variable leaf has the value of its answer,
+    whether it stands at top level or inside call arguments (where `replaceVariables` runs over the raw argument text
+    before that is parsed again) -/
+theorem fixed_value_render_vars (k : Nat) (z : Bool) (c : Cfg) (hk : cfg? k z = some c) (fns : List Bytes)
+    (f : Bytes → Bytes) (e : X) (hw : e.WF stdOps fns lpOp.prec) (he : e.EvAll stdOps f) (har : e.Ar)
+    (ws : Nat → Bytes) (hws : ∀ k, Blank (ws k)) (depth : Nat) (hd : e.cd ≤ depth) :
+    EvalFixed.evaluate c stdOps fns (some f) (depth + 1) (e.render lpOp rpOp ws) = (e.substAll f).val c :=
+  X.fx_evaluate_render_all c (fixed_cfg_one_ne_zero k z c hk) stdOps fns f lpOp rpOp table_full table_var_stop e hw he har
+    ws hws depth hd
+
+/-- robustness of the VALUE model: for EVERY byte list, every configuration and every resolver whose answers contain
+    no `$`, `Evaluate` of the fixed evaluator never reaches a Go panic (no stack index out of range, no nil operator,
+    no integer division by zero) and, beyond a finite budget, never exhausts the model's nesting budget -/
+theorem fixed_evaluate_no_panic (k : Nat) (z : Bool) (c : Cfg) (_hk : cfg? k z = some c) (fns : List Bytes)
+    (f : Bytes → Bytes) (s : Bytes) (h36 : ∀ n, (36 : Nat) ∉ f n) :
+    ∃ D, ∀ d, D ≤ d → EvalFixed.evaluate c stdOps fns (some f) d s ≠ .panic :=
+  EvalFixed.evaluate_terminates c stdOps fns table_lexable.ne (some f)
+    (by intro g hg; injection hg with hg; subst hg; exact h36) s
+
+/-- … with the budget the driver uses, for answers at most 32 bytes longer than `$name` -/
+theorem fixed_evaluate_no_panic_driver (c : Cfg) (fns : List Bytes) (resolve : Option (Bytes → Bytes))
+    (hres : ∀ f, resolve = some f → (∀ n, (36 : Nat) ∉ f n) ∧ (∀ n, (f n).length ≤ n.length + 33)) (s : Bytes) :
+    EvalFixed.evaluate c stdOps fns resolve (driverBudget s + 1) s ≠ .panic := by
+  refine EvalFixed.evaluate_no_panic_growth c stdOps fns table_lexable.ne resolve 32 s ?_ _ ?_
+  · intro f hf
+    exact ⟨(hres f hf).1, fun n _ => by have := (hres f hf).2 n; omega⟩
+  · unfold driverBudget; omega
 
 /-- composition with C03 (`Lemmas/Fixed64.lean`): whenever the exact intermediate results are representable, the
     operators on numbers yield the EXACT fixed-point results — sum, difference, product `⌊a·b / mult⌋` (toward zero),
@@ -871,6 +901,26 @@ example : FixedText.fromStr64 4 10000 (symBytes "2.5") = .ok 25000 ∧
     floorV ⟨4, 10000, true⟩ (-25000) = -30000 ∧ Fixed.Mult 10000 ∧ Fixed.fits64 (-25000) ∧
     binary ⟨4, 10000, true⟩ (symBytes "+") (.bool true) (.num 10000) = .ok (.num 20000) := by
   refine ⟨by decide, by decide, by decide, ⟨(4, 10000), by decide, rfl⟩, by decide, by decide⟩
+
+/-! non-vacuity of `fixed_value_render_vars`: `max($x,1)` with `$x ↦ 2` satisfies the hypotheses; its value in `fixed.D4`
+    is 2 (raw 20000) -/
+example : ∃ (e : X) (f : Bytes → Bytes), e.WF stdOps (Facts.fixedFunctions.map symBytes) lpOp.prec ∧
+    e.EvAll stdOps f ∧ e.Ar ∧ (e.substAll f).val ⟨4, 10000, true⟩ = .ok (.num 20000) := by
+  have a1 : AtomOK stdOps (symBytes "1") := ⟨by decide, by decide, by decide, by decide⟩
+  have a2 : AtomOK stdOps (symBytes "2") := ⟨by decide, by decide, by decide, by decide⟩
+  have ax : AtomOK stdOps (symBytes "$x") := ⟨by decide, by decide, by decide, by decide⟩
+  have f1 : AtomOK stdOps (symBytes "max") := ⟨by decide, by decide, by decide, by decide⟩
+  have m1 : symBytes "max" ∈ Facts.fixedFunctions.map symBytes := by decide
+  have hn : optIn stdOps none := by intro v hv; cases hv
+  have b0 : ∀ k : Nat, Blank ((fun _ => []) k) := by intro k c hc; cases hc
+  refine ⟨.call none (symBytes "max") [] (.cons (.atom none (symBytes "$x")) (fun _ => [])
+      (.cons (.atom none (symBytes "1")) (fun _ => []) .nil)), fun _ => symBytes "2", ?_, ?_, ?_, by decide⟩
+  · simp only [X.WF, XL.WF]
+    exact ⟨hn, f1, m1, b0 0, ⟨hn, ax⟩, b0, ⟨hn, a1⟩, b0, trivial⟩
+  · simp only [X.EvAll, XL.EvAll]
+    refine ⟨by decide, by decide, Or.inr ⟨symBytes "x", by decide, by decide, by decide, a2, by decide, by decide⟩,
+      Or.inl (by decide), trivial⟩
+  · simp only [X.Ar, XL.Ar, XL.length]; decide
 
 end FixedValues
 
